@@ -284,15 +284,18 @@ GoodLabs == {Lab(1, "alpha", "none"), Lab(1, "digit1", "none"), Lab(2, "alpha", 
              Lab(2, "digits", "none"), Lab(4, "mixed", "none"), Lab(6, "digit1", "mid2"), Lab(63, "alpha", "none"), Lab(63, "mixed", "mid")}
 BadLabs == {Lab(64, "alpha", "none"), Lab(3, "alpha", "lead"), Lab(3, "alpha", "trail"), Lab(1, "alpha", "lead"), Lab(64, "mixed", "mid")}
 L63 == Lab(63, "alpha", "none")
-HostSpace ==
+\* abs: the absolute form, with the trailing dot of the DNS root (RFC 1034 section 3.1); the dot is not one of the 253 characters
+HostSpace0 ==
   LET labs == GoodLabs \cup BadLabs
       last == {lb \in labs : HasLetter(lb)}          \* an all-numeric last label is not generated
   IN {[labels |-> <<a>>] : a \in last} \cup {[labels |-> <<a, b>>] : a \in labs, b \in last}
      \cup (IF Rich THEN {[labels |-> <<a, b, c>>] : a \in labs, b \in {Lab(2, "digits", "none"), Lab(1, "alpha", "none"), Lab(3, "alpha", "trail")}, c \in {Lab(2, "alpha", "none"), Lab(5, "mixed", "mid")}} ELSE {})
      \cup {[labels |-> <<L63, L63, L63, Lab(n, "alpha", "none")>>] : n \in {60, 61, 62}}     \* 252, 253, 254 characters
-HostToks(x) == Flat(Join([i \in 1..Len(x.labels) |-> LabChars(x.labels[i])], <<".">>))
+HostSpace == {[labels |-> h.labels, abs |-> b] : h \in HostSpace0, b \in BOOLEAN}
+HostRel(x) == Flat(Join([i \in 1..Len(x.labels) |-> LabChars(x.labels[i])], <<".">>))
+HostToks(x) == HostRel(x) \o (IF x.abs THEN <<".">> ELSE <<>>)
 HostWF(x) == /\ \A i \in 1..Len(x.labels) : LabWF(x.labels[i])
-             /\ Len(HostToks(x)) <= 253
+             /\ Len(HostRel(x)) <= 253
 HostIll == <<"!", " ", "_">>
 \* insert/j: illegal character number (i % 3) + 1 inserted after position i \div 3
 HostCorrs(x) == LET t == HostToks(x) IN
